@@ -70,28 +70,9 @@ impl<T: Dataset> Graph for UnionGraph<T> {
         self.0.objects()
     }
 
-    fn iris(&self) -> impl Iterator<Item = GResult<Self, GTerm<'_, Self>>> + '_ {
-        self.0.iris()
-    }
-
-    fn blank_nodes(&self) -> impl Iterator<Item = GResult<Self, GTerm<'_, Self>>> + '_ {
-        self.0.blank_nodes()
-    }
-
-    fn literals(&self) -> impl Iterator<Item = GResult<Self, GTerm<'_, Self>>> + '_ {
-        self.0.literals()
-    }
-
-    fn quoted_triples<'s>(&'s self) -> Box<dyn Iterator<Item = GResult<Self, GTerm<'s, Self>>> + 's>
-    where
-        GTerm<'s, Self>: Clone,
-    {
-        self.0.quoted_triples()
-    }
-
-    fn variables(&self) -> impl Iterator<Item = GResult<Self, GTerm<'_, Self>>> + '_ {
-        self.0.variables()
-    }
+    // NB: iris(), blank_nodes(), literals(), quoted_triples() and variables() are NOT forwarded to the
+    // dataset: the dataset's versions also yield the terms used as graph names,
+    // which are not part of the union graph. The default implementations (over `triples()`) apply.
 }
 
 //
